@@ -59,7 +59,15 @@ if a in s:
 import collections
 mrows = []
 mtot = collections.Counter()
-for f in sorted(glob.glob(os.path.join(HERE, 'notes', 'mutation', 'C*.json'))):
+_all = sorted(glob.glob(os.path.join(HERE, 'notes', 'mutation', 'C*.json')))
+_full = set(os.path.basename(f)[:3] for f in _all if f.endswith('-full.json'))
+for f in _all:
+    # a property that has a report of ALL its first-order mutants (Cxx-full) is counted by that report only;
+    # the earlier sampled reports of the same mutants stay in notes/mutation/ for the record
+    if os.path.basename(f)[:3] in _full and not f.endswith('-full.json'):
+        continue
+    if 'seed0' in os.path.basename(f):      # a first sample that a later report of the same property contains
+        continue
     try:
         d = json.load(open(f))
     except Exception:
